@@ -4243,9 +4243,9 @@ where
         }
       }
 
-      if entry.occur.is_some() {
-        self.state.occurrence = None;
-      }
+      // The occurrence in force (the entry's own or one inherited from an
+      // enclosing group) applied to this member only
+      self.state.occurrence = None;
 
       return Ok(());
     }
